@@ -29,7 +29,7 @@ def run(tier):
         scs = [dict(scenario="c02l", p=2, m=2, bound=3), dict(scenario="c02l", p=3, m=2, bound=2), dict(scenario="c02l", p=2, m=3, bound=2),
                dict(scenario="c02b", p=2, m=2, bound=3), dict(scenario="c02b", p=3, m=2, bound=2), dict(scenario="c02b", p=4, m=1, bound=2),
                dict(scenario="c02chain", p=2, m=2, bound=3), dict(scenario="c02chain", p=3, m=1, bound=2), dict(scenario="c02chain", p=4, m=1, bound=2)]
-        dl = 150
+        dl = 300
         scs += after_async(tier)
     else:
         scs = [dict(scenario="c02l", p=2, m=2, bound=4), dict(scenario="c02l", p=3, m=2, bound=3), dict(scenario="c02l", p=4, m=1, bound=3),
